@@ -205,19 +205,38 @@ def worker(cfg):
 _FAM = {}
 
 
-def family(n_nodes, n_comp, max_reactive, max_sources, rng=None, sample=None):
+def family(n_nodes, n_comp, max_reactive, max_sources, rng=None, sample=None, require=None):
     """non-degenerate circuits of the given size; with sample: a seeded random subset (candidates are tested lazily)"""
-    key = (n_nodes, n_comp, max_reactive, max_sources, sample, rng.random() if rng else None)
-    raw = []
     nodes = cirlib.node_names(n_nodes)
+    if sample is not None and rng is not None:
+        # seeded random candidates (spanning tree + extra edges, random kinds), tested lazily until enough pass
+        out = []; seen = set(); attempts = 0
+        while len(out) < sample and attempts < sample * 400:
+            attempts += 1
+            order = nodes[:]; rng.shuffle(order)
+            edges = [(order[k], order[rng.randrange(k)]) for k in range(1, n_nodes)]
+            while len(edges) < n_comp:
+                a, b = rng.sample(nodes, 2); edges.append((a, b))
+            rng.shuffle(edges)
+            ks = tuple(rng.choice(KINDS) for _ in edges)
+            nr = sum(1 for k in ks if k in ('C', 'L')); ns = sum(1 for k in ks if k in ('Vdc', 'Idc'))
+            if nr == 0 or nr > max_reactive or ns == 0 or ns > max_sources: continue
+            if require is not None and not require(ks): continue
+            comps = tuple((f'{cirlib.IDP[kind]}{k}', a, b, kind) for k, ((a, b), kind) in enumerate(zip(edges, ks)))
+            g = rng.choice(nodes)
+            if (comps, g) in seen: continue
+            seen.add((comps, g))
+            cfg = {'components': list(comps), 'ground': g}
+            if nondegenerate(cfg): out.append(cfg)
+        return out
+    raw = []
     for edges in cirlib.multigraphs(n_nodes, n_comp):
         for ks in itertools.product(KINDS, repeat=n_comp):
             nr = sum(1 for k in ks if k in ('C', 'L')); ns = sum(1 for k in ks if k in ('Vdc', 'Idc'))
             if nr == 0 or nr > max_reactive or ns == 0 or ns > max_sources: continue
+            if require is not None and not require(ks): continue
             for g in nodes:
                 raw.append((edges, ks, g))
-    if sample is not None and rng is not None:
-        rng.shuffle(raw)
     out = []
     for edges, ks, g in raw:
         comps = []
@@ -233,13 +252,16 @@ def family(n_nodes, n_comp, max_reactive, max_sources, rng=None, sample=None):
 
 def rename(cfg, rng):
     """names that interleave sources, inductors and passive elements alphabetically, shuffled listing order"""
-    pool = ['A', 'Is', 'K', 'L', 'M', 'Vs', 'Z', 'b', 'is', 'vs']
+    pool = ['A', 'Is', 'K', 'L', 'M', 'Vs', 'Z', 'b', 'is', 'vs', 'C10', 'C2', 'L10', 'L2']
     names = rng.sample(pool, len(cfg['components']))
     m = {c[0]: nm for c, nm in zip(cfg['components'], names)}
     nn = sorted({x for c in cfg['components'] for x in (c[1], c[2])})
     nm2 = dict(zip(nn, rng.sample(['0', '1', '10', '2', 'a', 'B', 'gnd', 'x'], len(nn))))
     comps = [(m[c[0]], nm2[c[1]], nm2[c[2]], c[3]) for c in cfg['components']]
     rng.shuffle(comps)
+    if rng.random() < 0.6:
+        # adversarial listing: same-kind elements in ANTI-alphabetical order (declaration order != sorted order)
+        comps.sort(key=lambda c: c[0], reverse=True)
     return {'components': comps, 'ground': nm2[cfg['ground']], 'ground_pos': rng.randrange(len(comps) + 1)}
 
 
@@ -254,7 +276,14 @@ def configs(what, tier, seed):
         fam = family(2, 2, 1, 1) + family(3, 3, 2, 2, rng, 160) + family(3, 4, 2, 2, rng, 100) + family(4, 4, 3, 1, rng, 30)
     else:
         fam = family(2, 2, 1, 1) + family(2, 3, 2, 2) + family(3, 3, 2, 2) + family(3, 4, 2, 2, rng, 4000) + family(4, 4, 3, 2, rng, 2000) + family(4, 5, 3, 2, rng, 1500) + family(5, 6, 3, 2, rng, 300)
+    # circuits with two capacitors / two inductors / two sources of one kind: listing order versus alphabetical order matters there
+    nsame = 12 if tier == 'quick' else 150
+    same = []
+    for kind in ('C', 'L', 'Vdc', 'Idc'):
+        same += family(3, 4, 2, 2, rng, nsame, require=lambda ks, k_=kind: ks.count(k_) == 2)
+        same += family(4, 5, 3, 2, rng, nsame, require=lambda ks, k_=kind: ks.count(k_) == 2)
     cfgs = [dict(c, what=what) for c in fam]
+    cfgs += [dict(rename(c, rng), what=what) for c in same for _ in range(2)]
     ren = [dict(rename(c, rng), what=what) for c in (rng.sample(fam, min(3000, len(fam))) if tier == 'thorough' else rng.sample(fam, min(80, len(fam))))]
     lab = [dict(c, what=what, symlabels=True) for c in rng.sample(fam, min(len(fam), 30 if tier == 'quick' else 400)) if len(c['components']) <= 3]
     twins = [dict(c, what=what, twin=True) for c in rng.sample(fam[:20], 3)]
